@@ -11,7 +11,7 @@
 import FcModel.Lexsort
 import Mathlib.Data.List.Basic
 import Mathlib.Data.List.Perm.Basic
-namespace Fc
+namespace Fc.C02
 variable {α : Type}
 
 /-- mask of one group -/
@@ -130,4 +130,4 @@ theorem foldl_applyRun_maskOf (f : List α → List α) (hlen : ∀ g, (f g).len
   have := foldl_applyRun_maskOf_aux f hlen hsing gs hne [] 0 0 rfl
   simpa [walkRuns] using this
 
-end Fc
+end Fc.C02
